@@ -1,7 +1,7 @@
 (* C14 — a scheduled jump acts exactly once, at its scheduled time. *)
 From Coq Require Import List Arith ZArith QArith.
 Import ListNotations.
-From Yaqs Require Import Base.Num Model.JumpPipeline Model.Grid Proofs.JumpPipelineP Proofs.GridQ.
+From Yaqs Require Import Base.Num Model.JumpPipeline Model.Grid Proofs.JumpPipelineP Proofs.GridQ Gen.SmallGen Proofs.SmallGenP.
 Local Open Scope nat_scope.
 
 (* for ANY schedule (several jumps, any grid indices), any column j: the jump scheduled at grid index k >= 1
@@ -50,3 +50,16 @@ Print Assumptions C14_applied_in_listed_order.
 Example C14_example : let s := from_list [2; 4] in
   sample2 s 4 = [Dh; J; U; D1; J; U; D1; Sj 2; U; D1; J; U; Dh; Sj 4] /\ count_S 2 (sample2 s 1) = 0 /\ u_before 4 (sample2 s 4) = Some 4.
 Proof. vm_compute. repeat split. Qed.
+
+(* tie to the source by translation (Gen/SmallGen.v regenerated on every run): the time-matching tests of has_scheduled_jump and of
+   apply_scheduled_jumps are the model's has_jump_at (absolute tolerance dt*1e-3, NO relative tolerance), and they are the
+   same test: a jump that is announced is the jump that is applied *)
+Theorem C14_source_announce_test_is_model : forall jump_time time dt, jump_announced_src jump_time time dt = has_jump_at jump_time time dt.
+Proof. exact jump_announced_src_is_model. Qed.
+Print Assumptions C14_source_announce_test_is_model.
+Theorem C14_source_apply_test_is_model : forall jump_time time dt, jump_applied_src jump_time time dt = has_jump_at jump_time time dt.
+Proof. exact jump_applied_src_is_model. Qed.
+Print Assumptions C14_source_apply_test_is_model.
+Theorem C14_source_announced_iff_applied : forall jump_time time dt, jump_announced_src jump_time time dt = jump_applied_src jump_time time dt.
+Proof. exact announced_iff_applied. Qed.
+Print Assumptions C14_source_announced_iff_applied.
